@@ -375,3 +375,7 @@ Lemma final_lines_summary evs t :
 Proof.
   unfold attr_of_final_events. rewrite attr_by_pos_fun. unfold seg_fun. apply abf_expand.
 Qed.
+
+Print Assumptions expand_inj.
+Print Assumptions stream_lines_summary.
+Print Assumptions final_lines_summary.
